@@ -85,6 +85,12 @@ PROPS = {
                    {'module': 'Latch', 'cfg': 'MC_Latch.cfg', 'constants': {'READLATCH': 'TRUE'}, 'quick': {}, 'thorough': {}, 'deadlock': True, 'asbuilt': True},
                    {'module': 'Latch', 'cfg': 'MC_Latch.cfg', 'constants': {'READLATCH': 'FALSE'}, 'quick': {}, 'thorough': {}, 'deadlock': True, 'expect_violation': True}],
             'trace': {'module': 'LatchTrace', 'cfg': 'LatchTrace.cfg'},
+            # inductive invariant of the latch protocol for any number of versions (Apalache); negative control: RLock without its guard
+            'apalache': [{'module': 'LatchInd', 'quick': True,
+                          'steps': [['--cinit=CInit', '--init=Init', '--inv=IndInv', '--length=0'],
+                                    ['--cinit=CInit', '--init=IndInit', '--inv=IndInv', '--length=1'],
+                                    ['--cinit=CInit', '--init=IndInit', '--inv=NoTornRead', '--length=0']],
+                          'negative': ('RLock(r)  == rpc[r] = "idle" /\\ wHolder = None', 'RLock(r)  == rpc[r] = "idle"')}],
             'families': [fam('latch', 'short', 3, 0, shards=1), fam('latch', 'long', 0, 4, shards=1)]},
     'C11': seq_prop('c11', 100, 2000, mc=[MC_CONC_STRICT, MC_CONC_ASBUILT], more=[fam('conc', 'c11', 32, 500)]),
     'C12': seq_prop('c12', 150, 2500, mc=[MC_KEYS_STRICT, MC_KEYS_ASBUILT], more=[fam('conc', 'c12', 24, 400)]),
